@@ -14,7 +14,7 @@ func withMix(m Mix, f func(*Mix)) Mix { f(&m); return m }
 // lightVariants: most histories store ints; some store another value type (a defect tied to the
 // value's size or layout - copying a value as one word, a leaf layout assumed for every V - must
 // not hide behind V = int). The collector-related checks on values are C18's.
-var lightVariants = []string{"", "", "", "", "", "string", "big", "empty", "bytes", "any"}
+var lightVariants = []string{"", "", "", "", "", "string", "big", "empty", "bytes", "any", "i32", "u8", "arr12"}
 
 var specs = []*PropSpec{
 	{
